@@ -5,32 +5,30 @@ import json, re, shutil, subprocess, sys
 from pathlib import Path
 C, X = sys.argv[1], sys.argv[2]
 extra = sys.argv[3:]
-out = Path(f"/tmp/seed/{C}.out/{X}")
-log = Path(f"/tmp/seed/verify_{C}.log").read_text()
+import os
+ROOT = os.environ.get("SEEDROOT", "/tmp/seed")
+NAME = os.environ.get("SEEDNAME", X)       # stored as <Cxx>-<NAME> (round 2: A -> C, B -> D)
+out = Path(f"{ROOT}/{C}.out/{X}")
+log = Path(f"{ROOT}/verify_{C}.log").read_text()
 m = re.search(rf"{C}-{X} demo_without=(\d+) demo_with=(\d+) pytest: (.*)", log)
 assert m, "not verified yet"
 d0, d1, pt = int(m[1]), int(m[2]), m[3]
 assert d0 == 0 and d1 != 0 and "152 passed" in pt, (d0, d1, pt)
-dst = Path(f"/verif/seeded/{C}-{X}")
+dst = Path(f"/verif/seeded/{C}-{NAME}")
 dst.mkdir(parents=True, exist_ok=True)
 for f in ("patch.diff", "demo.py", "notes.md"):
     shutil.copy(out / f, dst / f)
-assert subprocess.run(["git", "-C", "/repo", "diff", "--quiet"]).returncode == 0, "/repo dirty"
-subprocess.run(["git", "-C", "/repo", "apply", str(dst / "patch.diff")], check=True)
-det = {}
-try:
-    for pid in [C] + extra:
-        r = subprocess.run(["./check", pid, "quick", "--no-evidence"], cwd="/verif", capture_output=True, text=True)
-        rules = sorted(set(re.findall(r"rule (R[\d.]+)", r.stdout)))
-        det[pid] = {"exit": r.returncode, "rules": rules}
-finally:
-    subprocess.run(["git", "-C", "/repo", "checkout", "--", "."], check=True)
+sys.path.insert(0, "/verif/tools")
+import try_patch
+res = try_patch.run(dst / "patch.diff", [C] + extra)
+assert res is not None, "patch does not apply"
+det = {pid: {"exit": d["exit"], "rules": d["rules"]} for pid, d in res.items()}
 notes = (out / "notes.md").read_text()
 meta = {
-    "id": f"{C}-{X}", "breaks_property": C,
+    "id": f"{C}-{NAME}", "breaks_property": C,
     "needs_to_manifest": notes.strip().split("\n\n")[0][:1200],
     "confirmed": {"demo_exit_without_change": d0, "demo_exit_with_change": d1, "pinned_suite_with_change": pt,
-                  "how": f"tools/verify_seed.sh {C} {X} in scratch worktree /tmp/seed/{C} (PYTHONPATH=<worktree>/src)"},
+                  "how": f"tools/verify_seed.sh {C} {X} in scratch worktree {ROOT}/{C} (PYTHONPATH=<worktree>/src)"},
     "author": "independent sub-agent given only the property text and a scratch worktree",
     "detected_by": det,
 }
